@@ -349,4 +349,93 @@ func guardedBy(c *core.Ctx, lc *core.LockCache, el *entryLocks, rule string, g g
 	if n == 0 {
 		c.Undecided(rule, row, fld.Pos(), "no access to the field found: table row is stale")
 	}
+	guardedEscapes(c, lc, el, rule, g, fld, class)
+}
+
+// guardedEscapes: a slice or map loaded from a guarded field shares its
+// storage with the field; using it (indexing, ranging, len, lookup) after the
+// lock was released reads storage other goroutines modify under the lock —
+// unless ownership was transferred (the field was given a fresh value in the
+// same critical section, the swap-out idiom).
+func guardedEscapes(c *core.Ctx, lc *core.LockCache, el *entryLocks, rule string, g guardedField, fld *types.Var, class core.LockClass) {
+	switch fld.Type().Underlying().(type) {
+	case *types.Slice, *types.Map:
+	default:
+		return
+	}
+	row := g.Rel + "." + g.Struct + "." + g.Field
+	for _, fn := range c.RepoFuncs(g.Rel) {
+		if fn.Pkg.Pkg.Path() != core.Module+"/"+g.Rel || c.IsTestFile(fn) {
+			continue
+		}
+		lf := lc.Get(fn)
+		entry, _ := el.held(fn)
+		if entry[class] {
+			continue
+		}
+		ord := 0
+		for _, acc := range fieldAccesses(fn, fld) {
+			ld, ok := acc.instr.(*ssa.UnOp)
+			if !ok || acc.write || acc.fresh {
+				continue
+			}
+			if h, reached := lf.HeldAt(ld, class, false); !h || !reached {
+				continue // an unlocked load is already reported by the guarded-by rule
+			}
+			// ownership transfer: the field is assigned a fresh value after this load in the same section
+			transferred := false
+			for _, acc2 := range fieldAccesses(fn, fld) {
+				st, ok := acc2.instr.(*ssa.Store)
+				if !ok || !acc2.write || !core.Dominates(ld, st) {
+					continue
+				}
+				if h, _ := lf.HeldAt(st, class, true); !h {
+					continue
+				}
+				switch x := core.Canon(st.Val).(type) {
+				case *ssa.MakeMap, *ssa.MakeSlice:
+					transferred = true
+				case *ssa.Slice:
+					if _, fresh := x.X.(*ssa.Alloc); fresh {
+						transferred = true
+					}
+				case *ssa.Const:
+					transferred = x.Value == nil
+				}
+			}
+			if transferred {
+				continue
+			}
+			for _, u := range allUses(ld) {
+				if u.Parent() != fn {
+					continue
+				}
+				uses := false
+				switch x := u.(type) {
+				case *ssa.IndexAddr, *ssa.Index, *ssa.Lookup, *ssa.Range, *ssa.Slice, *ssa.MapUpdate:
+					uses = true
+				case *ssa.Call:
+					if bi, ok := x.Call.Value.(*ssa.Builtin); ok {
+						switch bi.Name() {
+						case "len", "cap", "delete", "copy":
+							uses = true
+						}
+					}
+				}
+				if !uses {
+					continue
+				}
+				if h, reached := lf.HeldAt(u, class, false); reached && !h {
+					ord++
+					c.Fail(rule, fmt.Sprintf("%s@%s/escape#%d", row, core.FuncKey(fn), ord), u.Pos(),
+						fmt.Sprintf("the %s loaded from %s under %s is still used here after the lock was released: it shares its storage with the field, which other goroutines modify under the lock (stale or duplicated elements, data race)", map[bool]string{true: "slice", false: "map"}[isSliceType(fld.Type())], row, class))
+				}
+			}
+		}
+	}
+}
+
+func isSliceType(t types.Type) bool {
+	_, ok := t.Underlying().(*types.Slice)
+	return ok
 }
